@@ -60,7 +60,7 @@ class SpecCtx:
 
 
 def check_function(I, target, build, spec, F, name, result_name="result", state_names=None,
-                   drop_contracts=(), merge_defs=True, structural=True, assume=(), force_sides=False):
+                   drop_contracts=(), merge_defs=True, structural=True, assume=(), force_sides=False, caller_owned=()):
     """target: qualname of a function/method in the repo or a callable thunk
     taking the built inputs.  build() -> (args list, kwargs dict) of fresh
     symbolic inputs (called several times; must be deterministic).
@@ -75,6 +75,7 @@ def check_function(I, target, build, spec, F, name, result_name="result", state_
     def thunk():
         args, kwargs = build()
         holder["ins"] = (args, kwargs)
+        del I.writes[:]
         I.complete_fixture([args, kwargs])
         if isinstance(target, str):
             f = lookup(I, target)
@@ -91,10 +92,14 @@ def check_function(I, target, build, spec, F, name, result_name="result", state_
 
         def thunk_raise_capture():
             try:
-                return ("ok",) + thunk2()
+                r_ = ("ok",) + thunk2()
             except PyRaise as e:
-                return ("raise", holder.get("ins"), e)
+                r_ = ("raise", holder.get("ins"), e)
+            holder.setdefault("wlist", []).append(list(I.writes))
+            return r_
         results = I.run_paths(thunk_raise_capture, base_assumptions=assume)
+        for k_, w_ in enumerate(holder.get("wlist", [])):
+            holder["writes%d" % k_] = w_
     except (ModelError, PathsExceeded) as e:
         T.SIDE = None
         I.no_contract = saved_nc
@@ -167,6 +172,18 @@ def check_function(I, target, build, spec, F, name, result_name="result", state_
             if isinstance(kwargs[kk], (Obj, list)):
                 V.compare(kwargs[kk], skwargs[kk], Fp, "%s%s.%s" % (name, suffix, kk), out)
         cache_coherence(I, [args, kwargs], Fp, pc, assume, name + suffix, out)
+        # caller-owned arrays handed in directly (not through an object the contract speaks about) are never written in place
+        if pi == len(results) - 1 or True:
+            names_ = state_names or {}
+            direct = [(names_.get(k, "arg%d" % k), a) for k, a in enumerate(args) if isinstance(a, Arr)] + \
+                     [(kk, a) for kk, a in kwargs.items() if isinstance(a, Arr)]
+            for nm_, a in direct:
+                if nm_ not in caller_owned:
+                    continue        # (some functions take output arrays: the obligation names the arguments that are the caller's data)
+                hit = [w for w in holder.get("writes%d" % pi, []) if w[1] & a.origin]
+                if hit:
+                    out.append(Clause("%s%s.%s.written-in-place" % (name, suffix, nm_), "refuted", "effects",
+                                      "the array passed as %s is written in place at %s (%s): the caller's array changes" % (nm_, hit[0][0], hit[0][2])))
     finals = []
     for pc, (_k, payload) in results:
         if payload[0] == "ok":
